@@ -82,6 +82,9 @@ def level_recipe(triple, rng, nmods=None, module_override=None, ovh_override=Non
             chain = [o[0], dna.rc(o[0])]          # the vector's two overhangs are reverse complements of each other
         else:
             chain = G.overhangs(n + 1, rng, "ACGT" if attempt < 20 else "AT")
+        if chain is not None and n >= 2 and not ovh_override and rng.random() < 0.3:
+            chain = list(chain)
+            chain[-1] = dna.rc(chain[rng.randrange(0, n - 1)])
         if chain is None or len(set(chain)) != len(chain):
             continue
         if any(o == dna.rc(o) for o in chain[:-1]) or any(a == dna.rc(b) for a in chain[:-1] for b in chain[:-1]):
